@@ -73,7 +73,8 @@ func loadProgram(dir string, patterns ...string) (*Program, error) {
 }
 
 // funcKey renders the contract-file name of a function:
-//   <pkgpath>.Name, <pkgpath>.(Recv).Name, <pkgpath>.(*Recv).Name, and Parent$N for closures.
+//
+//	<pkgpath>.Name, <pkgpath>.(Recv).Name, <pkgpath>.(*Recv).Name, and Parent$N for closures.
 func funcKey(fn *ssa.Function) string {
 	if fn.Parent() != nil {
 		// closure: name is Parent$N
